@@ -415,6 +415,15 @@ class Resolver:
 
     def iter_elem_kinds(self, it, fn):
         out = set()
+        # elements of Path.glob / rglob / iterdir are paths
+        if isinstance(it, ast.Call) and isinstance(it.func, ast.Attribute) and it.func.attr in ("glob", "rglob", "iterdir") \
+                and any(k == ("path",) for k in self.kinds(it.func.value, fn)):
+            return {("path",)}
+        if isinstance(it, ast.Call) and isinstance(it.func, ast.Name) and it.func.id in ("sorted", "list", "tuple", "reversed") and it.args:
+            inner = it.args[0]
+            if isinstance(inner, ast.Call) and isinstance(inner.func, ast.Attribute) and inner.func.attr in ("glob", "rglob", "iterdir") \
+                    and any(k == ("path",) for k in self.kinds(inner.func.value, fn)):
+                return {("path",)}
         for k in self.kinds(it, fn):
             if k[0] == "inst":
                 m = self.prog.find_method(k[1], "__next__")
